@@ -97,6 +97,13 @@ def mutations(r, data, fmt, big):
                 muts.append(("chunk-swap:%d,%d" % (i, j), b"".join(c2)))
                 muts.append(("chunk-size+1:%d" % i, b"".join(ch[:i]) + ch[i][:4] + struct.pack("<I", len(ch[i]) - 8 + 1) + ch[i][8:] + b"".join(ch[i + 1:])))
                 muts.append(("chunk-size-max:%d" % i, b"".join(ch[:i]) + ch[i][:4] + struct.pack("<I", 0xffffffff) + ch[i][8:] + b"".join(ch[i + 1:])))
+                # a well-formed chunk whose payload is longer / shorter than the fixed size the format expects
+                for k in (1, 3, 4, 5, 8, 64, 4096):
+                    pay = ch[i][8:]
+                    muts.append(("chunk-grow:%d+%d" % (i, k), b"".join(ch[:i]) + ch[i][:4] + struct.pack("<I", len(pay) + k) + pay + bytes([0x11 * (k % 15 + 1)]) * k + b"".join(ch[i + 1:])))
+                    if len(pay) >= k:
+                        muts.append(("chunk-shrink:%d-%d" % (i, k), b"".join(ch[:i]) + ch[i][:4] + struct.pack("<I", len(pay) - k) + pay[:len(pay) - k] + b"".join(ch[i + 1:])))
+                muts.append(("chunk-double:%d" % i, b"".join(ch[:i]) + ch[i][:4] + struct.pack("<I", 2 * (len(ch[i]) - 8)) + ch[i][8:] * 2 + b"".join(ch[i + 1:])))
     # havoc
     for k in range(160 if big else 60):
         b = bytearray(data)
@@ -125,7 +132,7 @@ def run(tier, seed, replay=None):
     res = C.Result("C05", tier, seed)
     res.rule = ("valid files of every format (written by the library's own writers or by the model) are mutated: every prefix of the first 72 bytes and 21 longer prefixes, every 32-bit "
                 "field of the first 320 bytes and sampled later fields set to 0, 1, 2, 2^15-1, 2^16-1, 2^16, 2^31-1, 2^31, 2^32-2, 2^32-1, size-1, size, size+1 and the distance to the end, "
-                "every single byte of files below 12 KB set to 0xff, chunk deletion / duplication / swap / size+1 / size=2^32-1 for the chunked formats, random havoc, codec streams made of runs of each codec's control bytes, and (attributes) contents of every flag combination cut short or over-long; each mutant is given to the public entry points (Archive::open, "
+                "every single byte of files below 12 KB set to 0xff, chunk deletion / duplication / swap / size+1 / size=2^32-1 and well-formed chunks grown by 1..4096 bytes, shortened or doubled for the chunked formats, random havoc, codec streams made of runs of each codec's control bytes, and (attributes) contents of every flag combination cut short or over-long; each mutant is given to the public entry points (Archive::open, "
                 "list, read_file of up to 40 files, get_info, verify_signature; PatchFile::parse + apply_patch; parse_m2, parse_skin, AnimFile::parse; parse_adt; parse_wmo; parse_blp + "
                 "blp_to_image; DbcParser::parse_bytes + parse_records; WdtReader::read; WdlParser::parse) in a forked child with a CPU limit of 5 s and an address-space limit of 2 GiB: "
                 "any panic, abort, segmentation fault, time-out or allocation failure is a violation; header admission of the model against validate_header_security on boundary "
